@@ -739,6 +739,13 @@ func (rg *Range) lenOf(v ssa.Value) Lin {
 			}
 			return base
 		}
+		// an in-module function all of whose returns are views of constant,
+		// equal length (buf[:] of a *[32]byte): that constant
+		if f := x.Call.StaticCallee(); f != nil && InModule(f) && f.Blocks != nil && f.Signature.Results().Len() == 1 && rg.depth < 6 {
+			if k, ok := rg.p.constResultLen(f, 0); ok {
+				return linConst(k)
+			}
+		}
 	case *ssa.Phi:
 		// all edges the same length?
 	}
@@ -1270,4 +1277,39 @@ func (rg *Range) lenOfTerm(t *Term) (Lin, bool) {
 		}
 	}
 	return linAtom(name), true
+}
+
+// constResultLen: every return of f yields a slice of the same constant length.
+var constLenMemo = map[*ssa.Function]int64{}
+
+func (p *Prog) constResultLen(f *ssa.Function, depth int) (int64, bool) {
+	if v, ok := constLenMemo[f]; ok {
+		return v, v >= 0
+	}
+	constLenMemo[f] = -1
+	if depth > 3 {
+		return 0, false
+	}
+	frg := p.NewRange(f)
+	res := int64(-1)
+	for _, b := range f.Blocks {
+		ret, ok := b.Instrs[len(b.Instrs)-1].(*ssa.Return)
+		if !ok || len(ret.Results) != 1 {
+			continue
+		}
+		l := frg.lenOf(ret.Results[0])
+		if !l.isConst() || !l.k.IsInt() {
+			return 0, false
+		}
+		k := l.k.Num().Int64()
+		if res >= 0 && res != k {
+			return 0, false
+		}
+		res = k
+	}
+	if res < 0 {
+		return 0, false
+	}
+	constLenMemo[f] = res
+	return res, true
 }
